@@ -141,6 +141,8 @@ func zzvReservation(name string, node string, available bool, allocateOnce bool,
 	r.Status.NodeName = node
 	if available {
 		r.Status.Phase = schedulingv1alpha1.ReservationAvailable
+		// an available reservation carries what was reserved in its status (written when it was scheduled)
+		r.Status.Allocatable = tmpl.Spec.Containers[0].Resources.Requests.DeepCopy()
 	} else {
 		r.Status.Phase = schedulingv1alpha1.ReservationPending
 	}
